@@ -157,6 +157,8 @@ double MetaOptimizer::doStep()
         cout << endl;
 
       getParameters_().matchParametersValues(opt.getParameters());
+      // A single step of an optimizer may leave the function at the last point tried, not at the point it reports:
+      getFunction()->setParameters(getParameters());
     }
     tolTest += nbParameters_[i] > 0 ? 1 : 0;
   }
